@@ -225,7 +225,7 @@ def check(run):
         sn = [t for t in tn if t not in tp_]
 
         def strip_params(s):
-            return re.sub(r',\s*parameters\)', ')', s)
+            return re.sub(r'(testing\.event_is_fired\([^,()]+(?:\.[^,()]+)*, \w+), \w+\)', r'\1)', s)
         good = len(sp_) >= 1 and len(sn) >= 1 and all(a[0] is True for a in sp_) and all(b[0] is False for b in sn) and \
             {strip_params(a[1]) for a in sp_} == {strip_params(b[1]) for b in sn}
         run.check(good, r2, fp.name + ' / ' + fn_.name, "'%s' asserts P, '%s' asserts not P" % (pos, neg),
@@ -305,10 +305,13 @@ def check(run):
     sc = run.fn('sismic.bdd.environment:before_scenario')
     S = sc.node
     mk = [n for n in q.walk(S) if isinstance(n, ast.Assign) and q.unparse(n.targets[0]) == 'context.interpreter']
-    run.check(len(mk) == 1 and q.unparse(mk[0].value) == 'interpreter_klass(statechart)', r4, sc.short, 'a fresh interpreter of the configured statechart per scenario', 'differs', S)
-    for nm, key in (('statechart', 'statechart'), ('interpreter_klass', 'interpreter_klass')):
-        d = q.assigned_value(S, nm)
-        run.check(len(d) == 1 and q.unparse(d[0][1]) == "context.config.userdata.get('%s')" % key, r4, sc.short, '%s taken from the configuration' % nm, 'differs', S)
+    v = strip_cast(mk[0].value) if len(mk) == 1 else None
+    shape = isinstance(v, ast.Call) and isinstance(v.func, ast.Name) and len(v.args) == 1 and isinstance(v.args[0], ast.Name) and not v.keywords
+    run.check(shape, r4, sc.short, 'a fresh interpreter of the configured statechart per scenario', 'differs', S)
+    if shape:
+        for nm, key in ((v.args[0].id, 'statechart'), (v.func.id, 'interpreter_klass')):
+            d = q.assigned_value(S, nm)
+            run.check(len(d) == 1 and q.unparse(d[0][1]) == "context.config.userdata.get('%s')" % key, r4, sc.short, '%s taken from the configuration' % key, 'differs', S)
     init = {q.unparse(n.targets[0]): q.unparse(n.value) for n in q.walk(S) if isinstance(n, ast.Assign)}
     run.check(init.get('context._monitoring') == 'False' and init.get('context.monitored_trace') == 'None', r4, sc.short, 'scenario starts unmonitored with no trace', 'differs', S)
     bp = [c for c in q.calls(S) if q.unparse(c.func) == 'context.interpreter.bind_property_statechart']
@@ -346,9 +349,10 @@ def check(run):
                            're-execute the embedded steps under the keyword they were invoked with')
     se = run.fn('sismic.bdd.steps:send_event')
     qc = [c for c in q.calls(se.node) if q.unparse(c.func) == 'context.interpreter.queue']
-    good = len(qc) == 1 and not guards(qc[0]) and q.unparse(qc[0].args[0]) == 'name' and any(k.arg is None and q.unparse(k.value) == 'parameters' for k in qc[0].keywords)
+    star = [k.value for k in qc[0].keywords if k.arg is None and isinstance(k.value, ast.Name)] if len(qc) == 1 else []
+    good = len(qc) == 1 and not guards(qc[0]) and q.unparse(qc[0].args[0]) == q.param_names(se.node)[1] and len(star) == 1
     run.check(good, r6, se.short, 'queues the named event with the collected parameters', 'differs', se.node)
-    pn = value_names(se.node, ast.Name(id='parameters', ctx=ast.Load()))
+    pn = value_names(se.node, star[0]) if star else set()
     run.check({'parameter', 'value', 'context.table'} <= pn, r6, se.short, 'inline and table parameters both reach the event', 'parameters derive from %s' % sorted(pn)[:8], se.node)
     wt = run.fn('sismic.bdd.steps:wait')
     aug = [n for n in q.walk(wt.node) if isinstance(n, ast.AugAssign)]
@@ -373,6 +377,7 @@ def check(run):
     ex = [c for c in q.calls(rs.node) if q.unparse(c.func) == 'context.execute_steps']
     if ex:
         at = guard_atoms(ex[0])
-        run.check(('==', 'included_scenario.name', 'scenario') in at or ('==', 'scenario', 'included_scenario.name') in at, r6, rs.short, 'reproduces the scenario of the given name',
-                  'condition is %s' % at, ex[0])
-        run.check(any(a[0] == 'in' and a[1] == 'step.step_type' and "'given'" in a[2] and "'when'" in a[2] for a in at), r6, rs.short, 'only its given/when steps are re-executed', 'differs', ex[0])
+        scen = q.param_names(rs.node)[1]
+        run.check(any(a[0] == '==' and ((a[1].endswith('.name') and a[2] == scen) or (a[2].endswith('.name') and a[1] == scen)) for a in at), r6, rs.short,
+                  'reproduces the scenario of the given name', 'condition is %s' % at, ex[0])
+        run.check(any(a[0] == 'in' and a[1].endswith('.step_type') and "'given'" in a[2] and "'when'" in a[2] for a in at), r6, rs.short, 'only its given/when steps are re-executed', 'differs', ex[0])
